@@ -3,6 +3,8 @@
 //! note: FundedChannel::get_update_fulfill_htlc (whole function): claiming an inbound HTLC with a preimage either changes nothing (the HTLC is unknown, already removed, or its claim already waits in the holding cell: DuplicateClaim, the monitor-update id is left as it was) or produces exactly one ChannelMonitorUpdate, numbered one above the last, whose single step hands THIS preimage to the monitor, and records the claim in the channel: in the HTLC's state when a commitment can be generated now, otherwise as one ClaimHTLC in the holding cell (and says so: update_blocked)
 //! trusted: R5: Self skeleton {context: {channel_state, pending_inbound_htlcs, holding_cell_htlc_updates, latest_monitor_update_id, channel id}}; ChannelState is a two-variant skeleton (ChannelReady / other) whose can_generate_new_commitment() answers an uninterpreted bit of the state; InboundHTLCState, InboundHTLCRemovalReason, HTLCUpdateAwaitingACK and UpdateFulfillFetch are extracted; payload types (resolutions, onion packets, sources, attribution data, claim details) are opaque
 //! trusted: R6: `for (idx, htlc) in V.iter().enumerate() { B }` and `for x in V.iter() { B }` are index loops carrying B verbatim; R16: `match htlc.state { .. V(ref x) .. }` is `match &htlc.state { .. V(x) .. }`, `if let &P = reason` is `if let P = reason`, `match x { &V { f, .. } => .. }` on a reference is written under default binding modes (f is then a reference: `htlc_id_arg == htlc_id` is written `htlc_id_arg == *htlc_id`); R7: the or-pattern arm is one arm per alternative; R8: the hash of the preimage is the uninterpreted sha256_of; R11: panic! is unreachable!()
+//! note: FundedChannel::fail_htlc (whole function, E instantiated with a failure whose three conversions are uninterpreted): a failure is refused, leaving the channel as it was, for an HTLC that is unknown or already removed, and on the holding-cell path when a claim or a failure for it already waits there; otherwise it is recorded exactly once - as the HTLC's removal with the message to send, or as one entry of the holding cell - and never touches the monitor-update id
+//! assume: fail_htlc: HTLC ids are unique among the pending inbound HTLCs; force_holding_cell is set whenever no commitment can be generated; the HTLC is Committed or already removed (LDK's debug_assert!s)
 //! assume: the caller's obligations that LDK states as panic! / debug_assert!: the channel is in ChannelReady; the preimage hashes to the HTLC's payment hash; an HTLC that is claimed is Committed or was already removed by a claim (never one that was failed, never one not yet fully committed), and no failure for it waits in the holding cell
 //! trusted: assume_specification for core::cmp::max / core::cmp::min (std definitions): present in every unit so that a change that introduces them is verified instead of being rejected by the tool
 use vstd::prelude::*;
@@ -201,6 +203,116 @@ impl FundedChannel {
     htlc_value_msat = htlc.amount_msat;
 //@with
     htlc_value_msat = htlc.htlc_id;
+//@end
+}
+
+// ---- FundedChannel::fail_htlc (whole function): failing an inbound HTLC ----
+pub enum ChannelError { Ignore(u8), Close(u8) }
+pub struct FailContents { pub id: u64 }
+pub struct FailMessage { pub htlc_id: u64, pub channel_id: ChannelId, pub contents: u64 }
+pub uninterp spec fn held_failure(c: FailContents, htlc_id: u64) -> HTLCUpdateAwaitingACK;
+pub uninterp spec fn removed_state(c: FailContents) -> InboundHTLCState;
+impl Clone for FailContents { #[verifier::external_body] fn clone(&self) -> (r: Self) ensures r == *self { unimplemented!() } }
+impl FailContents {
+    // FailHTLCContents: the three conversions of a failure (a plain or a malformed one)
+    #[verifier::external_body] pub fn to_htlc_update_awaiting_ack(self, htlc_id: u64) -> (r: HTLCUpdateAwaitingACK)
+        ensures r == held_failure(self, htlc_id), (r matches HTLCUpdateAwaitingACK::FailHTLC { htlc_id: i, .. } && i == htlc_id) || (r matches HTLCUpdateAwaitingACK::FailMalformedHTLC { htlc_id: i, .. } && i == htlc_id) { unimplemented!() }
+    #[verifier::external_body] pub fn to_inbound_htlc_state(self) -> (r: InboundHTLCState) ensures r == removed_state(self), r is LocalRemoved { unimplemented!() }
+    #[verifier::external_body] pub fn to_message(self, htlc_id: u64, channel_id: ChannelId) -> (r: FailMessage) ensures r == (FailMessage { htlc_id, channel_id, contents: self.id }) { unimplemented!() }
+}
+pub open spec fn unique_ids(v: Seq<InboundHTLCOutput>) -> bool { forall|i: int, j: int| 0 <= i < j < v.len() ==> (#[trigger] v[i]).htlc_id != (#[trigger] v[j]).htlc_id }
+impl FundedChannel {
+//@extract lightning/src/ln/channel.rs :: impl FundedChannel :: fn fail_htlc
+//@r7
+//@rw R5
+    fn fail_htlc<L: Logger, E: FailHTLCContents + Clone>( &mut self, htlc_id_arg: u64, err_contents: E, mut force_holding_cell: bool, logger: &L ) -> Result<Option<E::Message>, ChannelError> {
+//@with
+    fn fail_htlc<L: Logger>( &mut self, htlc_id_arg: u64, err_contents: FailContents, force_holding_cell_: bool, logger: &L ) -> Result<Option<FailMessage>, ChannelError> {
+        let mut force_holding_cell = force_holding_cell_;
+//@rw R6
+    for (idx, htlc) in self.context.pending_inbound_htlcs.iter().enumerate() { $body:any }
+//@with
+    let mut idx: usize = 0;
+    while idx < self.context.pending_inbound_htlcs.len()
+        invariant
+            *self == *old(self), idx <= self.context.pending_inbound_htlcs@.len(), unique_ids(old(self).context.pending_inbound_htlcs@),
+            forall|j: int| 0 <= j < old(self).context.pending_inbound_htlcs@.len() && (#[trigger] old(self).context.pending_inbound_htlcs@[j]).htlc_id == htlc_id_arg
+                ==> old(self).context.pending_inbound_htlcs@[j].state is Committed || old(self).context.pending_inbound_htlcs@[j].state is LocalRemoved,
+            pending_idx == usize::MAX ==> forall|j: int| 0 <= j < idx ==> (#[trigger] self.context.pending_inbound_htlcs@[j]).htlc_id != htlc_id_arg,
+            pending_idx != usize::MAX ==> pending_idx < idx && self.context.pending_inbound_htlcs@[pending_idx as int].htlc_id == htlc_id_arg && self.context.pending_inbound_htlcs@[pending_idx as int].state is Committed,
+        decreases self.context.pending_inbound_htlcs@.len() - idx
+    {
+        let htlc = &self.context.pending_inbound_htlcs[idx];
+        proof { if htlc.htlc_id == htlc_id_arg { if pending_idx == usize::MAX { lemma_index_of(self.context.pending_inbound_htlcs@, htlc_id_arg, idx as int); } } }
+        $body
+        idx = idx + 1;
+    }
+    proof {
+        if pending_idx == usize::MAX { lemma_index_none(self.context.pending_inbound_htlcs@, htlc_id_arg); }
+        else { assert forall|j: int| 0 <= j < pending_idx implies (#[trigger] self.context.pending_inbound_htlcs@[j]).htlc_id != htlc_id_arg by {}
+               lemma_index_of(self.context.pending_inbound_htlcs@, htlc_id_arg, pending_idx as int); }
+    }
+//@rw R6
+    for pending_update in self.context.holding_cell_htlc_updates.iter() { $body:any }
+//@with
+    let mut __k: usize = 0;
+    while __k < self.context.holding_cell_htlc_updates.len()
+        invariant
+            __k <= self.context.holding_cell_htlc_updates@.len(), *self == *old(self), force_holding_cell_,
+            forall|j: int| 0 <= j < __k ==> !(#[trigger] self.context.holding_cell_htlc_updates@[j] matches HTLCUpdateAwaitingACK::ClaimHTLC { htlc_id, .. } && htlc_id == htlc_id_arg)
+                && !(self.context.holding_cell_htlc_updates@[j] matches HTLCUpdateAwaitingACK::FailHTLC { htlc_id, .. } && htlc_id == htlc_id_arg)
+                && !(self.context.holding_cell_htlc_updates@[j] matches HTLCUpdateAwaitingACK::FailMalformedHTLC { htlc_id, .. } && htlc_id == htlc_id_arg),
+        decreases self.context.holding_cell_htlc_updates@.len() - __k
+    {
+        let pending_update = &self.context.holding_cell_htlc_updates[__k];
+        proof {
+            let h = old(self).context.holding_cell_htlc_updates@;
+            if h[__k as int] matches HTLCUpdateAwaitingACK::ClaimHTLC { htlc_id, .. } && htlc_id == htlc_id_arg { assert(claim_waits_in_holding_cell(h, htlc_id_arg)); }
+            if (h[__k as int] matches HTLCUpdateAwaitingACK::FailHTLC { htlc_id, .. } && htlc_id == htlc_id_arg) || (h[__k as int] matches HTLCUpdateAwaitingACK::FailMalformedHTLC { htlc_id, .. } && htlc_id == htlc_id_arg) { assert(failure_waits_in_holding_cell(h, htlc_id_arg)); }
+        }
+        $body
+        __k = __k + 1;
+    }
+//@rw R8 *
+    ChannelError::Ignore(format!($m:any))
+//@with
+    ChannelError::Ignore(0)
+//@rw R16
+    &HTLCUpdateAwaitingACK::ClaimHTLC { htlc_id, .. } => { if htlc_id_arg == htlc_id {
+//@with
+    HTLCUpdateAwaitingACK::ClaimHTLC { htlc_id, .. } => { if htlc_id_arg == *htlc_id {
+//@rw R16
+    &HTLCUpdateAwaitingACK::FailHTLC { htlc_id, .. } => { if htlc_id_arg == htlc_id {
+//@with
+    HTLCUpdateAwaitingACK::FailHTLC { htlc_id, .. } => { if htlc_id_arg == *htlc_id {
+//@rw R16
+    &HTLCUpdateAwaitingACK::FailMalformedHTLC { htlc_id, .. } => { if htlc_id_arg == htlc_id {
+//@with
+    HTLCUpdateAwaitingACK::FailMalformedHTLC { htlc_id, .. } => { if htlc_id_arg == *htlc_id {
+//@ret r
+//@requires
+    old(self).context.channel_state is ChannelReady, unique_ids(old(self).context.pending_inbound_htlcs@),
+    !old(self).context.channel_state.can_commit() ==> force_holding_cell_,
+    forall|j: int| 0 <= j < old(self).context.pending_inbound_htlcs@.len() && (#[trigger] old(self).context.pending_inbound_htlcs@[j]).htlc_id == htlc_id_arg
+        ==> old(self).context.pending_inbound_htlcs@[j].state is Committed || old(self).context.pending_inbound_htlcs@[j].state is LocalRemoved,
+//@ensures P C02,C01 a-failure-is-refused-for-an-htlc-that-is-unknown-already-resolved-or-has-a-claim-or-failure-waiting-and-otherwise-recorded-exactly-once
+    ({ let v = old(self).context.pending_inbound_htlcs@; let h = old(self).context.holding_cell_htlc_updates@; let k = index_of(v, htlc_id_arg);
+       let refused = k < 0 || !(v[k].state is Committed) || (force_holding_cell_ && (claim_waits_in_holding_cell(h, htlc_id_arg) || failure_waits_in_holding_cell(h, htlc_id_arg)));
+       &&& refused ==> r is Err && same_channel(*final(self), *old(self))
+       &&& !refused && force_holding_cell_ ==> r == Ok::<Option<FailMessage>, ChannelError>(None) && final(self).context.pending_inbound_htlcs@ == v
+             && final(self).context.holding_cell_htlc_updates@ =~= h.push(held_failure(err_contents, htlc_id_arg))
+       &&& !refused && !force_holding_cell_ ==> r == Ok::<Option<FailMessage>, ChannelError>(Some(FailMessage { htlc_id: htlc_id_arg, channel_id: old(self).context.id, contents: err_contents.id }))
+             && final(self).context.holding_cell_htlc_updates@ == h
+             && final(self).context.pending_inbound_htlcs@ =~= v.update(k, InboundHTLCOutput { state: removed_state(err_contents), ..v[k] })
+       &&& final(self).context.latest_monitor_update_id == old(self).context.latest_monitor_update_id && final(self).context.channel_state == old(self).context.channel_state }),
+//@mutant failure_queued_for_an_htlc_whose_claim_waits_in_the_holding_cell
+    &HTLCUpdateAwaitingACK::ClaimHTLC { htlc_id, .. } => { if htlc_id_arg == htlc_id { return Err(
+//@with
+    &HTLCUpdateAwaitingACK::ClaimHTLC { htlc_id, .. } => { if htlc_id_arg == htlc_id + 1 { return Err(
+//@mutant already_resolved_htlc_failed_again
+    InboundHTLCState::LocalRemoved(_) => { return Err(
+//@with
+    InboundHTLCState::LocalRemoved(_) if false => { return Err(
 //@end
 }
 }
